@@ -431,3 +431,16 @@ PROPS['C19'] = dict(
     level_note='A type with only explicit construction from int cannot detect static_cast<T>(0.5)-style truncation at compile time; that is caught by the exactness runs. Orders > 6 and operator nestings outside the catalogue are not instantiated.',
     assumptions=[EXACT, SAN],
 )
+
+PROPS['C18'] = dict(
+    confirm_any=True,  # schedules are not reproducible: a replay runs the workload 20 times, one failing replay confirms
+    units=[dict(target=T('h_threads', kind='tsan'), quick=dict(args=['--repeats', '3'], scale=4.0), thorough=dict(args=['--repeats', '5'], scale=10.0, shards=4))],
+    rule=('generated multi-thread workloads: a shared CONST pool (one grid, 3..6 windows each materialised as splines of orders 0..3, their supports, a BSplineGenerator, two compound operator expressions, a SplineOperator, LinearForm, BilinearForm, ScalarProduct objects) + per-thread op lists (4..24 ops from 16 kinds: evaluate, copy+destroy, copy-assign, a+b, a-b, a*b, '
+          'apply shared operator, apply shared spline operator, linear form, bilinear form (incl. copying a shared SplineOperator), generateBSplines on the shared generator, predicates, linearCombination over the shared vector, support union/intersection/copy, numerical integration, grid copy) for 2/3/4/8/16 threads with generated yield/spin patterns; all threads start behind one barrier; every workload is executed 3 (quick) or 5 (thorough) times. '
+          'Oracle: ThreadSanitizer with halt_on_error (any report is a violation) and bitwise equality of every thread\'s result vector with a sequential run of the same op list. Non-trivial: >= 2 threads and >= 4 ops. Distinct = distinct workload text.'),
+    technique='rapidcheck-generated multi-thread workloads executed under ThreadSanitizer (happens-before race detection) with a sequential-run differential',
+    engine='rapidcheck + ThreadSanitizer',
+    level_text='Schedules are SAMPLED, not enumerated. TSan reports an unsynchronised access pair whenever both accesses are executed, largely independent of the interleaving, which is what makes hidden caches / lazily filled tables / static scratch buffers detectable; a race that needs a specific window and is invisible to TSan would be missed. Claim: no race on any executed access pair in the generated workloads, results deterministic.',
+    level_note='This is the property this technique is weakest at (DESIGN section 4, C18). Trusted: ThreadSanitizer; librapidcheck/libgmp are not TSan-instrumented but are used on the main thread only.',
+    assumptions=['ThreadSanitizer detects the races it instruments (compiler-inserted loads/stores; not inline asm, not accesses in uninstrumented libraries)'],
+)
